@@ -104,10 +104,24 @@ def run(report, p):
     r1.check("new_hasher_for_hash_type(hash_format)" in it.replace(init.params[1], "hash_format") and it.count("= []") == 2, init, init.node, "a context does not start with a hasher of its own format and two empty lists", construct="context init")
 
     # ------------------------------------------------------------------ R7.2
-    r2 = report.rule("R7.2", "list hash: sort, then for EVERY element decode with the class's own decoder and update; the empty list hashes as the empty input; the digest comes from the hasher that was fed", 1)
+    r2 = report.rule("R7.2", "list hash: sort, then for EVERY element decode with the class's own decoder and update; the empty list hashes as the empty input; the digest comes from the hasher that was fed; no hasher class overrides it with something that drops or merges elements", 1)
     hl = p.funcs.get("ascmhl.hasher.Hasher.hash_of_hash_list")
     if hl is None:
         raise AnalysisError("Hasher.hash_of_hash_list not found")
+    # sibling implementations: an override in a subclass must hand the very list (at most re-ordered) to the base implementation
+    for cq in p.subclasses("ascmhl.hasher.Hasher"):
+        ov = p.classes[cq].methods.get("hash_of_hash_list") if cq in p.classes else None
+        if ov is None or ov is hl:
+            continue
+        r2.instance(ov, ov.node, f"override in {cq.split('.')[-1]}")
+        lstp = [x for x in ov.params if x not in ("self", "cls")]
+        supers = [n for n in walk_no_nested(ov.node) if isinstance(n, ast.Call) and isinstance(n.func, ast.Attribute) and n.func.attr == "hash_of_hash_list" and "super()" in norm(n.func.value)]
+        if len(supers) != 1 or len(lstp) != 1 or not supers[0].args:
+            raise AnalysisError(f"{ov.qual}: an override of the list hash that does not delegate to the base implementation is not modelled")
+        a = supers[0].args[0]
+        while isinstance(a, ast.Call) and norm(a.func) in ("sorted", "list", "tuple") and len(a.args) == 1 and not a.keywords:
+            a = a.args[0]
+        r2.check(isinstance(a, ast.Name) and a.id == lstp[0], ov, supers[0], f"{cq.split('.')[-1]} hashes `{norm(supers[0].args[0])[:50]}` instead of the list of child digests it was given: elements are dropped or merged (a `set` removes equal digests - two children with the same content count once, and {{X,X,Y}} hashes like {{X,Y,Y}})", construct=f"{cq.split('.')[-1]}.hash_of_hash_list alters the list")
     g = cfg_of(hl)
     r2.instance(hl, hl.node, "hash_of_hash_list")
     lst = hl.params[1]
